@@ -74,6 +74,10 @@ inductive Expr where
   | split (s : Expr) (arr : String) (sep : Option Expr)
   /-- `sub(/pat/, repl [, target])` / `gsub(...)` with a literal, non-empty pattern -/
   | subst (global : Bool) (pat : String) (repl : Expr) (target : Option Expr)
+  /-- `sub(/re/, repl [, target])` / `gsub(...)` with a regular expression that cannot match the empty string -/
+  | substRe (global : Bool) (re : Regex) (repl : Expr) (target : Option Expr)
+  /-- `match(s, /re/)`: sets RSTART and RLENGTH -/
+  | matchFn (s : Expr) (re : Regex)
   /-- `getline`, `getline lv`, `getline < file`, `getline lv < file` -/
   | getline (lv : Option Expr) (file : Option Expr)
   | close (e : Expr)
